@@ -1,7 +1,9 @@
 """C10 Queue delivers every accepted item exactly once, in order, to waiters in order."""
+from .. import mixed
 from ..faults import sweep
 
 ID = "C10"
+MIXED_SHARE = 0.2
 LEVEL = "fault_enumeration"
 RULE = ("seeded scenarios of 1-3 producers (unique values), 1-4 consumers (single gets and "
         "`async for` with optional early break / slow body), an optional closer and a final "
@@ -34,6 +36,9 @@ def _gap(rng, ops):
 
 
 def generate(rng, tier):
+    if rng.random() < MIXED_SHARE:
+        # the primitive inside blocks of the other primitives (usimdst/mixed.py)
+        return mixed.generate(rng, ID)
     actors = []
     n_prod = rng.randint(1, 3)
     n_cons = rng.randint(1, 4)
@@ -80,6 +85,8 @@ def generate(rng, tier):
 
 def explore(case, base, rng, tier, one):
     victims = [a["name"] for a in case["scenario"]["actors"] if a["name"] != "zdrain"]
+    if case.get("family") == "mixed":
+        victims = mixed.victims(case)
     sweep(case, base, rng, one, victims, ("cancel", "interrupt", "close"),
           BUDGET[tier]["per_group"], pairs=BUDGET[tier]["per_group"])
 
@@ -117,6 +124,8 @@ def check(rec):
     last_time = None
     for ev in rec.trace:
         tick, act, now, actor, kind = ev[:5]
+        if kind[:3] in ("put", "get", "ite", "clo") and len(ev) > 5 and ev[5] != "Q":
+            continue                     # another stream of a mixed program
         if last_time is not None and now != last_time:
             firm = [v for v, opt in buffer if not opt]
             if firm and waiting:
